@@ -16,7 +16,7 @@ LEVEL_TEXT = (
     'necessary conditions; termination and schedule independence as theorems are NOT decided.')
 
 FLOORS = {'C05-R1': 6, 'C05-R2': 5, 'C05-R3': 1, 'C05-R4': 2, 'C05-R5': 2, 'C05-R6': 4,
-          'C05-R7': 4, 'C05-R8': 3}
+          'C05-R7': 4, 'C05-R8': 3, 'C05-R9': 1}
 
 BLOCKING = ('thread::sleep', 'JoinHandle::join', 'Receiver::recv', 'Receiver::recv_timeout',
             'Thread::park', 'thread::park', 'Condvar::wait', 'Condvar::wait_for', 'Condvar::wait_until',
@@ -364,8 +364,7 @@ def r7_joined_threads(ctx, F):
                               (cl.path, [u[:50] for u in ups]), span=sc.span)
 
 
-def r8_atomic_arbitration(ctx, F):
-    rule = 'C05-R8'
+def r8_atomic_arbitration(ctx, F, rule='C05-R8'):
     for strat in EXHAUSTIVE:
         with ctx.rule(rule, strat):
             cb = CB(F, strat)
@@ -382,6 +381,42 @@ def r8_atomic_arbitration(ctx, F):
                       bad='%s: `generated` is also accessed through %s: a check-then-insert sequence is '
                           'not atomic, two workers can both see "absent" and both enqueue the state' %
                           (strat, [c.short.split('::')[-1] + '@' + c.span for c in bad]))
+
+
+def r9_empty_batch_is_shutdown_signal(ctx, F, rule='C05-R9'):
+    """Reader/writer agreement: workers treat an empty batch from pop() as "no more work" and shut
+    down (closing the market for everybody). Therefore no batch that is split off a worker's queue
+    may be published while empty."""
+    import c02
+    readers = []
+    for strat in EXHAUSTIVE:
+        sp = Spawn(F, strat)
+        ex = c02.sanctioned_worker_exits(F, sp)
+        if any(l == 'no-more-work' and e for (l, e) in ex):
+            readers.append(strat)
+    if not readers:
+        ctx.ok(rule, 'no-reader-uses-empty-as-signal', 'workers', 'no worker interprets an empty batch as shutdown')
+        return
+    sp = F.body('job_market::JobBroker::<Job>::split_and_push')
+    ctx.touched(sp)
+    pushes = [c for c in sp.calls_to('Vec::push')
+              if (lambda v: v.fields() and v.fields()[-1] == '.job_batches')(
+                  noref(sp.trace(sp.val(c.args[0]), ('DerefMut::deref_mut', 'Deref::deref'))))]
+    if not pushes:
+        raise AnchorMissing('split_and_push: push onto job_batches not found')
+    for pc in pushes:
+        bv = noref(sp.val(pc.args[1]))
+        guards_ = [c for c in sp.calls_to('VecDeque::is_empty') if noref(sp.val(c.args[0])) == bv]
+        ok = False
+        for g in guards_:
+            fe = sp.branch(g, False)
+            if fe and sp.edges_dominate(fe, pc.bb, frm=[g.bb]) and sp.dominates(g.bb, pc.bb):
+                ok = True
+        ctx.check(ok, rule, 'published-batch-is-non-empty', sp,
+                  good='a split-off batch is published only after is_empty() returned false',
+                  bad='split_and_push can publish an EMPTY batch: workers (%s) treat an empty batch from '
+                      'pop() as "no more work", shut down and - through Drop - close the market and '
+                      'discard the real batches: pending work is lost' % '/'.join(readers), span=pc.span)
 
 
 def run(ctx):
@@ -407,3 +442,7 @@ def run(ctx):
         r6_drop(ctx, F)
     r7_joined_threads(ctx, F)
     r8_atomic_arbitration(ctx, F)
+    ctx.doc('C05-R9', 'reader/writer agreement on the empty-batch shutdown signal: a batch split off a '
+                      'worker queue is published only when non-empty')
+    with ctx.rule('C05-R9', 'split_and_push'):
+        r9_empty_batch_is_shutdown_signal(ctx, F)
